@@ -130,7 +130,8 @@ def highest_density_region(data, fractions_desired, only_upper_part=False, _buff
         data, fractions_desired, only_upper_part, _buffer_size
     )
 
-    lowest_sample_seen = np.inf
+    # Ties with the largest sample are handled like all other ties
+    lowest_sample_seen = data[max_to_min[0]]
     for j in range(1, len(data)):
         if lowest_sample_seen == data[max_to_min[j]]:
             continue
